@@ -47,6 +47,10 @@ def toAscii (idna : Spec.Idna) (plain : Bytes) (firstPercent : Option Nat) : Opt
   | none => none
   | some o => if o.isEmpty || containsForbiddenDomain o 0 then none else some o
 
+/-- what `is_ipv4` / `parse_ipv4` make of a host text that is otherwise accepted as it stands -/
+def ipv4OrDomain (host : Bytes) : Option (Bytes × Nat) :=
+  if isIpv4 host then (parseIpv4 host).map (fun h => (h, 1)) else some (host, 0)
+
 /-- `url::parse_host(input)` for a non-empty input -/
 def parseHost (idna : Spec.Idna) (special : Bool) (input : Bytes) : Option (Bytes × Nat) :=
   if input.isEmpty then none else
@@ -58,14 +62,11 @@ def parseHost (idna : Spec.Idna) (special : Bool) (input : Bytes) : Option (Byte
     some (if input.getLast? == some 0x2E then input.dropLast else input, 1)
   else
     let buffer := input.map toLowerByte
-    if !containsForbiddenDomain buffer 0 && !hasXnDash buffer then
-      if isIpv4 buffer then (parseIpv4 buffer).map (fun h => (h, 1)) else some (buffer, 0)
+    if !containsForbiddenDomain buffer 0 && !hasXnDash buffer then ipv4OrDomain buffer
     else
       match toAscii idna input (findPercent input) with
       | none => none
-      | some host =>
-        if host.any isForbiddenDomainCp then none
-        else if isIpv4 host then (parseIpv4 host).map (fun h => (h, 1)) else some (host, 0)
+      | some host => if host.any isForbiddenDomainCp then none else ipv4OrDomain host
 
 /-- `contains_forbidden_domain_code_point_or_upper`: 0 = clean, 2 = only upper-case letters stand out, 1 / 3 = forbidden -/
 def containsForbiddenOrUpper : Bytes → Nat → Nat
@@ -73,10 +74,6 @@ def containsForbiddenOrUpper : Bytes → Nat → Nat
     containsForbiddenOrUpper rest (acc ||| tget Gen.forbiddenDomainOrUpperTable a.toNat ||| tget Gen.forbiddenDomainOrUpperTable b.toNat |||
       tget Gen.forbiddenDomainOrUpperTable c.toNat ||| tget Gen.forbiddenDomainOrUpperTable d.toNat)
   | l, acc => l.foldl (fun acc x => acc ||| tget Gen.forbiddenDomainOrUpperTable x.toNat) acc
-
-/-- what `is_ipv4` / `parse_ipv4` make of a host text that is otherwise accepted as it stands -/
-def ipv4OrDomain (host : Bytes) : Option (Bytes × Nat) :=
-  if isIpv4 host then (parseIpv4 host).map (fun h => (h, 1)) else some (host, 0)
 
 /-- `url_aggregator::parse_host(input)` for a non-empty input: the text that ends up as hostname, and `host_type`
     (the intermediate `update_base_hostname` calls are overwritten by the last one) -/
